@@ -523,7 +523,8 @@ func (m *storageModel) diff(ds *hostsfile.DefaultStorage) string {
 }
 
 type storageCase struct {
-	Recs []int `json:"recs"` // indexes into recordAlphabet
+	Recs         []int `json:"recs"` // indexes into recordAlphabet
+	ObserveEvery bool  `json:"observe_every"`
 }
 
 type recTemplate struct {
@@ -553,7 +554,7 @@ func (sc storageCase) String() string {
 	return strings.Join(p, " ")
 }
 
-func runStorage(sc storageCase) (viol, what string, collided bool) {
+func runStorage(sc storageCase, observeEvery bool) (viol, what string, collided bool) {
 	alpha := recordAlphabet()
 	var ds, twin *hostsfile.DefaultStorage
 	if pv, _ := runlib.Try(func() {
@@ -582,6 +583,13 @@ func runStorage(sc storageCase) (viol, what string, collided bool) {
 		m.add(t.addr, t.names)
 		if fmt.Sprint(m.names, m.addrs) == before && len(t.names) > 0 {
 			collided = true
+		}
+
+		if !observeEvery && step < len(sc.Recs)-1 {
+			// Observers may refresh state that a later Add relies on; this
+			// variant observes only after the last step (every prefix is a
+			// sequence of its own).
+			continue
 		}
 
 		var d string
@@ -685,7 +693,7 @@ func main() {
 					c.Violation("Parse/"+v, what+" (reads: "+trace+")", w)
 				}
 			case w.Storage != nil:
-				if v, what, _ := runStorage(*w.Storage); v != "" {
+				if v, what, _ := runStorage(*w.Storage, w.Storage.ObserveEvery); v != "" {
 					c.Violation("DefaultStorage/"+v, what, w)
 				}
 			case len(w.Chain) == 3:
@@ -785,9 +793,15 @@ func main() {
 			sc := storageCase{Recs: append([]int(nil), seq...)}
 			c.Eval()
 			c.Family("storage-sequences")
-			v, what, collided := runStorage(sc)
+			sc.ObserveEvery = true
+			v, what, collided := runStorage(sc, true)
 			if v != "" {
 				c.Violation("DefaultStorage/"+v, what, map[string]any{"storage": sc})
+			}
+
+			sc.ObserveEvery = false
+			if v, what, _ = runStorage(sc, false); v != "" {
+				c.Violation("DefaultStorage/"+v, what+" (observed only at the end)", map[string]any{"storage": sc})
 			}
 
 			if collided {
